@@ -283,7 +283,7 @@ def monitors(sm: dict) -> list:
     for t, owned, a, b in sm['fsm_log']:
         if b == 'IDLE' and a in ('OPENSENT', 'OPENCONFIRM', 'ESTABLISHED') and owned is not None:
             s = socks[owned]
-            if not s['closed'] or (s['closed_at'] is not None and s['closed_at'] > t + 1e-6):
+            if not s['closed'] or (s['closed_at'] is not None and s['closed_at'] > t + CLOSE_GRACE):
                 viols.append((f'transport-open-after-leave:{a}', f'left {a} for IDLE at t={t} while connection {owned} stayed open (closed at {s["closed_at"]})'))
     # (6) RFC 4271 event 18 (TcpConnectionFails): a session cannot stay in a connected state once its transport is
     # gone - at the end of the execution a peer in OPENSENT/OPENCONFIRM/ESTABLISHED owns an open connection
@@ -345,6 +345,7 @@ def bystander(sm: dict, choices: dict) -> list:
 
 
 STEPS = 16
+CLOSE_GRACE = 0.05  # seconds of virtual time between leaving a connected state and the close of its transport (half a read period)
 
 
 def run(ctx: core.Ctx) -> None:
